@@ -127,16 +127,20 @@ class BuiltinMixin:
         if not a:
             return Builtin("dataclass()", lambda it2, a2, k2: self._dataclass(it2, a2, k))
         cls = a[0]
+        own = []
+        for n in getattr(cls, "ann_order", []):
+            if n in cls.ns:
+                d = cls.ns[n]
+                spec = d if isinstance(d, FieldSpec) else FieldSpec(default=d, has_default=True)
+            else:
+                spec = FieldSpec()
+            own.append((n, spec))
+        cls.dc_own = own
         fields = []
         seen = {}
         for c in reversed(cls.mro):
             if c is cls or c.is_dataclass:
-                for n in getattr(c, "ann_order", []):
-                    if n in c.ns:
-                        d = c.ns[n]
-                        spec = d if isinstance(d, FieldSpec) else FieldSpec(default=d, has_default=True)
-                    else:
-                        spec = FieldSpec()
+                for n, spec in getattr(c, "dc_own", []):
                     if n in seen:
                         fields[seen[n]] = (n, spec)
                     else:
